@@ -63,7 +63,14 @@ pub fn run_check(spec: CheckSpec, opts: &Opts) -> i32 {
   let mut exit = 0;
   let mut unlisted = 0usize;
   let mut known_printed: BTreeMap<String, usize> = BTreeMap::new();
+  // (debugging aid, never set by registered commands: run only the lanes whose name contains this)
+  let only_lane = std::env::var("VERIF_ONLY_LANE").ok();
   for (li, l) in spec.lanes.iter().enumerate() {
+    if let Some(f) = &only_lane {
+      if !l.name.contains(f.as_str()) {
+        continue;
+      }
+    }
     let runs = ((if opts.tier == Tier::Quick { l.quick_runs } else { l.thorough_runs }) as f64 * opts.scale).ceil() as u64;
     let cfg = LaneCfg {
       lane: l.name.clone(),
